@@ -769,3 +769,8 @@ package types
 //@   loop 0 invariant forall(j, 0, i, len(parts[j].Bytes) == partLen(len(data), partSize, j))
 //@   loop 1 invariant 0 <= i && i <= total && len(parts) == total && fresh(parts)
 //@   loop 1 invariant forall(j, 0, total, parts[j] != nil && fresh(parts[j]) && len(parts[j].Bytes) == partLen(len(data), partSize, j))
+
+//@ func (Tx).Size
+//@   props C05
+//@   assigns  nothing
+//@   ensures  result == 1
